@@ -1,0 +1,108 @@
+//go:build verif
+
+package test
+
+// Contracts for the deductive verifier under /verif (comment-only; build tag verif).
+// The lexer in this package is generated (templates in gen/) with custom actions from test.tm:
+// a second start condition (inMultiLine) for nested comments, whose closing token starts at the
+// offset remembered when the comment was opened (commentOffset).
+
+// ---- the constant tables of the generated lexer ----
+
+//@ table tmRuneClass
+//@   fact len(tmRuneClass) == 256
+//@   fact forall i in 0..len(tmRuneClass) :: 1 <= tmRuneClass[i] && tmRuneClass[i] < 42
+
+//@ table tmRuneRanges
+//@   fact len(tmRuneRanges) == 1
+//@   fact forall i in 0..len(tmRuneRanges) :: 1 <= tmRuneRanges[i].defaultVal && tmRuneRanges[i].defaultVal < 42 && 0 <= tmRuneRanges[i].lo && tmRuneRanges[i].lo < tmRuneRanges[i].hi
+//@   fact forall i in 0..len(tmRuneRanges) :: forall j in 0..len(tmRuneRanges[i].val) :: 1 <= tmRuneRanges[i].val[j] && tmRuneRanges[i].val[j] < 42
+
+//@ table tmStateMap
+//@   fact len(tmStateMap) == 2 && tmStateMap[0] == 0 && tmStateMap[1] == 50
+
+//@ table tmLexerAction
+//@   fact len(tmLexerAction) == 57 * 42
+//@   fact forall i in 0..len(tmLexerAction) :: -51 <= tmLexerAction[i] && tmLexerAction[i] < 57
+// the initial start state has no accepting entry and no checkpoint; at the end of the input it reports "no match"
+//@   fact forall i in 0..42 :: tmLexerAction[i] == -5 || tmLexerAction[i] >= 0
+//@   fact tmLexerAction[0] == -5
+// the inMultiLine start state (50) consumes every character, and at the end of the input goes to
+// state 56, whose only entries accept rule 43 (invalid_token: /{eoi}/); nothing else leads there
+//@   fact forall i in 2100..2142 :: tmLexerAction[i] >= 0
+//@   fact tmLexerAction[2100] == 56
+//@   fact forall i in 0..len(tmLexerAction) :: tmLexerAction[i] == 56 ==> i == 2100
+//@   fact forall i in 0..len(tmLexerAction) :: tmLexerAction[i] == -48 <==> (2352 <= i && i < 2394)
+//@   fact forall i in 0..len(tmLexerAction) :: tmLexerAction[i] != 50
+// the two start conditions use disjoint parts of the automaton: states 0..49 with rules 0..42, and
+// states 50..56 with rules 43..46 (no "no match" and no checkpoint in the second part)
+//@   fact forall i in 0..2100 :: -47 <= tmLexerAction[i] && tmLexerAction[i] < 50
+//@   fact forall i in 2100..len(tmLexerAction) :: tmLexerAction[i] >= 51 || tmLexerAction[i] <= -48
+// rule 1 (the end-of-input token) is never an accept action of the automaton
+//@   fact forall i in 0..len(tmLexerAction) :: tmLexerAction[i] != -6
+
+//@ table tmBacktracking
+//@   fact len(tmBacktracking) == 8
+//@   fact forall i in 0..len(tmBacktracking) :: 2 <= tmBacktracking[i] && tmBacktracking[i] < 50 && (i % 2 == 0 ==> tmBacktracking[i] < 43)
+
+//@ table tmToken
+//@   fact len(tmToken) == 47
+//@   fact forall i in 0..len(tmToken) :: i != 1 ==> tmToken[i] != 0
+
+//@ func mapRune
+//@   ensures 1 <= result && result < 42
+//@   loop 1:
+//@     invariant 0 <= lo && lo <= hi && hi <= len(tmRuneRanges)
+//@     decreases hi - lo
+
+// mustParseInt never panics (the repair of the crash on literals that do not fit an int).
+//@ func mustParseInt
+
+//@ func Lexer.Text
+//@   requires 0 <= l.tokenOffset && l.tokenOffset <= l.offset && l.offset <= len(l.source)
+
+// ---- lexer state ----
+
+//@ pred wfWindow(l *Lexer) = 0 <= l.offset && l.offset <= l.scanOffset && l.scanOffset <= len(l.source) && (l.ch == -1 <==> l.offset == len(l.source)) && (l.offset == len(l.source) ==> l.scanOffset == l.offset) && (l.offset < len(l.source) ==> l.scanOffset > l.offset && l.scanOffset <= l.offset + 4 && 0 <= l.ch && l.ch <= 1114111)
+
+//@ func Lexer.rewind
+//@   requires 0 <= offset && offset <= len(l.source)
+//@   modifies l.ch, l.offset, l.scanOffset
+//@   ensures wfWindow(l) && l.offset == offset
+
+//@ func Lexer.Init
+//@   modifies l.source, l.ch, l.offset, l.scanOffset, l.tokenOffset, l.State
+//@   ensures wfWindow(l) && l.source == source && l.State == 0
+//@   ensures l.tokenOffset == 0 && (l.offset == 0 || l.offset == 3)
+
+// Next (C12): tokens in source order, every token except EOI non-empty, EOI only at the end of the
+// source; the restart loop (space tokens, comment bookkeeping) strictly advances; the lexer is back in
+// the initial start condition whenever it returns. A comment token (or the invalid token for an
+// unterminated comment) starts where the comment was opened.
+//@ func Lexer.Next
+//@   requires wfWindow(l) && l.State == 0
+//@   modifies l.ch, l.offset, l.scanOffset, l.tokenOffset, l.value, l.State
+//@   ensures wfWindow(l) && l.State == 0
+//@   ensures old(l.offset) <= l.tokenOffset && l.tokenOffset <= l.offset
+//@   ensures result != token.EOI ==> l.tokenOffset < l.offset
+//@   ensures result == token.EOI ==> l.tokenOffset == len(l.source) && l.offset == len(l.source)
+//@   loop 1:
+//@     invariant wfWindow(l) && old(l.offset) <= l.offset && (l.State == 0 || l.State == 1)
+//@     invariant l.State == 1 ==> old(l.offset) <= commentOffset && commentOffset < l.offset
+//@     decreases len(l.source) - l.offset
+//@   loop 2:
+//@     invariant wfWindow(l) && (l.State == 0 || l.State == 1) && (l.State == 1 ==> old(l.offset) <= commentOffset && commentOffset < l.tokenOffset)
+//@     invariant old(l.offset) <= l.tokenOffset && l.tokenOffset <= l.offset
+//@     invariant -51 <= state && state < 57 && (state <= -5 || state >= 0) && state != -6
+//@     invariant l.State == 0 ==> -47 <= state && state < 50
+//@     invariant l.State == 1 ==> state >= 50 || state <= -48
+//@     invariant state == 50 ==> l.offset == l.tokenOffset
+//@     invariant (state == 56 || state == -48) ==> l.offset == l.tokenOffset
+//@     invariant backupRule == -1 || (l.State == 0 && 2 <= backupRule && backupRule < 43 && l.tokenOffset < backupOffset && backupOffset <= l.offset)
+//@     invariant l.offset == l.tokenOffset ==> backupRule == -1 && (state == 0 || state == -5 || state == 50 || state == 56 || state == -48)
+//@   loop 3:
+//@     invariant wfWindow(l) && (l.State == 0 || l.State == 1) && (l.State == 1 ==> old(l.offset) <= commentOffset && commentOffset < l.tokenOffset)
+//@     invariant old(l.offset) <= l.tokenOffset && l.tokenOffset <= l.offset
+//@     invariant 0 <= rule && rule < 47 && rule != 1 && (rule != 0 && rule != 43 ==> l.tokenOffset < l.offset)
+//@     invariant (l.State == 0 ==> rule < 43) && (l.State == 1 ==> rule >= 43)
+//@     invariant backupRule == -1 || (l.State == 0 && 2 <= backupRule && backupRule < 43 && l.tokenOffset < backupOffset && backupOffset <= len(l.source))
